@@ -21,6 +21,7 @@ import Fir.Proofs.ImageLemmas
 import Fir.Proofs.TwoPassLemmas
 import Fir.Proofs.IdealFilterLemmas
 import Fir.Proofs.TwoPass16Lemmas
+import Fir.Proofs.FloatLemmas
 
 namespace Fir.C01
 open Fir
@@ -288,6 +289,45 @@ theorem documented_constants :
       ("Hamming", "hamming_filter", 10, 10), ("CatmullRom", "catmul_filter", 20, 10), ("Mitchell", "mitchell_filter", 20, 10),
       ("Gaussian", "gaussian_filter", 30, 10), ("Lanczos3", "lanczos_filter", 30, 10)] := by
   decide
+
+/-! ### I32 and the float formats: `ss += px as f64 * k`, then `round() as i32` / `as f32`
+
+    stated for every rounding function `fl` with relative error `u` (binary64: u = 2^-53), see
+    Fir.Proofs.FloatLemmas; the loop `accF` is the portable kernel's accumulation, every product and
+    every addition rounded once -/
+
+open Fir.Flt in
+/-- accumulated f64 error of one pass of `n` taps: `|ŝ − Σxᵢkᵢ| ≤ ((1+u)^(n+1) − 1)·Σ|xᵢkᵢ|` -/
+theorem pass_err_f64 (fl : ℚ → ℚ) (u : ℚ) (hu : 0 ≤ u) (hfl : RelErr fl u) (ks xs : List ℚ) (hlen : ks.length = xs.length) :
+    |accF fl ks xs 0 - dotQ ks xs| ≤ gam u ks.length * dotAbs ks xs :=
+  accF_err fl u hu hfl ks xs hlen
+
+open Fir.Flt in
+/-- I32: the stored value `r = ss.round() as i32` (no saturation) is within half a unit plus the
+    accumulated f64 error of the exact weighted sum -/
+theorem pass_err_i32 (fl : ℚ → ℚ) (u : ℚ) (hu : 0 ≤ u) (hfl : RelErr fl u) (ks xs : List ℚ) (hlen : ks.length = xs.length)
+    (r : ℤ) (hr : |(r : ℚ) - accF fl ks xs 0| ≤ 1 / 2) :
+    |(r : ℚ) - dotQ ks xs| ≤ 1 / 2 + gam u ks.length * dotAbs ks xs :=
+  finish_i32_err r _ _ _ (accF_err fl u hu hfl ks xs hlen) hr
+
+open Fir.Flt in
+/-- F32: the stored value `ss as f32` is one binary32 rounding (u32 = 2^-24) of the accumulated sum:
+    "a few f32 ulps" = `u32·(|s| + E) + E` with `E` the f64 accumulation error -/
+theorem pass_err_f32 (fl fl32 : ℚ → ℚ) (u u32 : ℚ) (hu : 0 ≤ u) (hu32 : 0 ≤ u32) (hfl : RelErr fl u) (hfl32 : RelErr fl32 u32)
+    (ks xs : List ℚ) (hlen : ks.length = xs.length) :
+    |fl32 (accF fl ks xs 0) - dotQ ks xs|
+      ≤ u32 * (|dotQ ks xs| + gam u ks.length * dotAbs ks xs) + gam u ks.length * dotAbs ks xs :=
+  finish_f32_err fl32 u32 hu32 hfl32 _ _ _ (accF_err fl u hu hfl ks xs hlen)
+
+open Fir.Flt in
+/-- the same bound for every summation order (SIMD lanes + horizontal add), by depth of the tree -/
+theorem pass_err_f64_any_order (fl : ℚ → ℚ) (u : ℚ) (hu : 0 ≤ u) (hfl : RelErr fl u) (x k : ℕ → ℚ) (t : Shape) :
+    |t.eval fl x k - t.exact x k| ≤ gam u t.depth * t.absSum x k :=
+  tree_err fl u hu hfl x k t
+
+/-- non-vacuity: the identity is a rounding with error 0, and then the loop is exact -/
+example : Fir.Flt.accF id [1 / 2, 1 / 2] [10, 21] 0 = 31 / 2 := by norm_num [Fir.Flt.accF]
+example : Fir.Flt.RelErr id 0 := by intro y; simp
 
 /-! ### non-vacuity -/
 example : passInt .u8 [8192, 8192] [10, 21] 14 = 16 := by decide
